@@ -45,6 +45,8 @@ pub enum DesugarError {
     ManifestPatternOutsideExistential(Sp<t::PatId>),
     #[error("The binding has both `!` and `fix` modifiers")]
     CompWhileFix(Sp<b::PatId>),
+    #[error("A destructor `{0}` cannot appear among the parameters of a codata arm")]
+    DestructorInCodataArmParameters(String),
 }
 
 pub type Result<T> = std::result::Result<T, DesugarError>;
